@@ -73,6 +73,54 @@ func translateSet(s *fieldpath.Set, oldS, newS string) *fieldpath.Set {
 	return out
 }
 
+// splitOwnership: the layout behind finding D11. The applier's previous record (pruned first) holds
+// an item path q (a list item or a map entry: a member with members beneath it); some record at version va holds a path
+// strictly beneath q while no record at va holds q itself, and a record at another version does.
+// addBackOwnedItems then visits va, finds q neither kept nor owned there and removes the item with
+// everything beneath it; the visit of the other version puts the item back without what va's managers
+// owned beneath it. A single-version run sees q and the paths beneath it in one union and keeps both.
+// Sets are compared after translation to the base version. newSet is the applier's new record.
+func splitOwnership(m fieldpath.ManagedFields, mgr string, ver string, newSet *fieldpath.Set) bool {
+	last, had := m[mgr]
+	if !had || !last.Applied() {
+		return false
+	}
+	type rec struct {
+		ver string
+		set *fieldpath.Set
+	}
+	recs := []rec{{ver, translateSet(newSet, ver, "v1")}}
+	for k, vs := range m {
+		if k != mgr {
+			recs = append(recs, rec{string(vs.APIVersion()), translateSet(vs.Set(), string(vs.APIVersion()), "v1")})
+		}
+	}
+	hasAt := func(v string, q fieldpath.Path, same bool) bool {
+		for _, r := range recs {
+			if (r.ver == v) == same && r.set.Has(q) {
+				return true
+			}
+		}
+		return false
+	}
+	lastSet := translateSet(last.Set(), string(last.APIVersion()), "v1")
+	found := false
+	for _, r := range recs {
+		r.set.Iterate(func(p fieldpath.Path) {
+			for i := 1; i < len(p) && !found; i++ {
+				q := p[:i]
+				if !lastSet.Has(q) {
+					continue
+				}
+				if !hasAt(r.ver, q, true) && hasAt(r.ver, q, false) {
+					found = true
+				}
+			}
+		})
+	}
+	return found
+}
+
 func domMV(r *gen.Rng, n int, thorough bool, o *Out) {
 	versions := []string{"v1", "v2", "v3"}
 	var c *typCtx
@@ -153,6 +201,12 @@ func domMV(r *gen.Rng, n int, thorough bool, o *Out) {
 			if orderDependentVersions(mA, mgr, fieldpath.APIVersion(ver)) >= 2 {
 				tainted = true
 			}
+			split := false
+			if !isUpdate && !tainted {
+				if ns, err := tvVer.ToFieldSet(); err == nil {
+					split = splitOwnership(mA, mgr, ver, ns)
+				}
+			}
 			okStep := false
 			res := o.Emit(op, func() string {
 				// run A: at the request's version, live converted first
@@ -203,19 +257,34 @@ func domMV(r *gen.Rng, n int, thorough bool, o *Out) {
 				o.Emit("upd.sync "+vx.Value(liveA.AsValue())+" "+encManaged(mA), func() string { return "ok" })
 				if !tainted {
 					// translated to the base version, run A equals run B: object and records
+					clause, det := "", ""
 					back, err := conv.Convert(liveA, "v1")
-					if err != nil || vx.CanonValue(back.AsValue()) != vx.CanonValue(liveB.AsValue()) {
-						o.Fail("C20", "versioned-run-equals-single-version-run/object", "", "versioned-run-equals-single-version-run/object "+op, op)
-					}
-					if len(mA) != len(mB) {
-						o.Fail("C20", "versioned-run-equals-single-version-run/ownership", "different managers", "versioned-run-equals-single-version-run/ownership "+op, op)
+					if err != nil {
+						clause, det = "object", err.Error()
+					} else if vx.CanonValue(back.AsValue()) != vx.CanonValue(liveB.AsValue()) {
+						clause, det = "object", "versioned run (translated): "+vx.CanonValue(back.AsValue())+" single-version run: "+vx.CanonValue(liveB.AsValue())
+					} else if len(mA) != len(mB) {
+						clause, det = "ownership", "different managers"
 					} else {
 						for k, va := range mA {
 							vb, ok := mB[k]
 							if !ok || va.Applied() != vb.Applied() || !translateSet(va.Set(), string(va.APIVersion()), "v1").Equals(vb.Set()) {
-								o.Fail("C20", "versioned-run-equals-single-version-run/ownership", k, "versioned-run-equals-single-version-run/ownership "+op, op)
+								clause, det = "ownership", k+": versioned "+translateSet(va.Set(), string(va.APIVersion()), "v1").String()
+								if ok {
+									det += " single-version " + vb.Set().String()
+								}
 							}
 						}
+					}
+					if clause != "" {
+						sig := "versioned-run-equals-single-version-run/" + clause + " " + op
+						if split {
+							// finding D11; from here on the two runs are in different states
+							sig = "versioned-run-equals-single-version-run/D11-version-by-version-add-back " + op
+							o.Tag("mv:split-ownership(D11)")
+						}
+						o.Fail("C20", "versioned-run-equals-single-version-run/"+clause, det, sig, op)
+						tainted = true
 					}
 				}
 			}
